@@ -369,6 +369,54 @@ def groups(src):
 
 
 @rigged
+def groups_end_to_end(src):
+    """H18h: the same through the real chain - rules document -> Parser -> Context.setdefault_process -> the planning of
+    the application by the real Starter (ApplicationStatus.resolve_rules) - for a homogeneous group that is, or is not,
+    part of the start sequence"""
+    from rig.cluster import memory_parser
+    from supervisor.states import ProcessStates as PS
+    core = Core(3, 0)
+    ids = core.ids
+    sign = src.pick('sign', ['@', '#'])
+    nprocs = src.pick_int('numprocs', 1, 4)
+    ref = src.pick('identifiers', [('*',)] + [c for k in (1, 2, 3) for c in itertools.permutations(range(3), k)])
+    ref_ids = ['*'] if ref == ('*',) else [ids[i] for i in ref]
+    universe = ids if ref == ('*',) else ref_ids
+    seq = src.pick('group_start_sequence', [0, 1, 2])
+    doc = ('<root><application name="app"><start_sequence>1</start_sequence><programs>'
+           '<program name="main"><start_sequence>1</start_sequence></program>'
+           f'<program pattern="prog_"><identifiers>{sign},{",".join(ref_ids)}</identifiers>'
+           f'<start_sequence>{seq}</start_sequence></program></programs></application></root>')
+    core.parser = memory_parser(core, doc)
+    for i in ids:
+        core.identify(i)
+        from supvisors.ttypes import SupvisorsInstanceStates as S
+        core.set_instance_state(i, S.RUNNING)
+        core.add_process(i, 'app', 'main', PS.STOPPED)
+        for k in range(nprocs):
+            core.add_process(i, 'app', f'prog_{k}', PS.STOPPED, program_name='prog', process_index=k)
+    app = core.context.applications['app']
+    core.starter.store_application(app)
+    procs = [app.processes[f'prog_{k}'] for k in range(nprocs)]
+    assigned = [p.rules.identifiers for p in procs]
+    tag = f'{sign}:sequence={seq}'
+    if sign == '@':
+        for k, p in enumerate(procs):
+            if k < len(universe):
+                src.check('at-assigns-instances-in-order', assigned[k] == [universe[k]], sig=tag, k=k,
+                          got=assigned[k], expected=universe[k])
+            else:
+                src.check('at-leaves-extra-processes-unassigned', assigned[k] == [], sig=tag, k=k, got=assigned[k])
+    else:
+        counts = {i: sum(1 for a in assigned if a == [i]) for i in universe}
+        src.check('hash-assigns-every-process', all(len(a) == 1 and a[0] in universe for a in assigned), sig=tag,
+                  got=assigned)
+        src.check('hash-balances', max(counts.values()) - min(counts.values()) <= 1, sig=tag, counts=counts)
+    src.check('no-internal-error', not core.logger.tracebacks(), log=core.logger.tracebacks()[:1])
+    src.reach('resolved')
+
+
+@rigged
 def options(src):
     """H18e: every [supvisors] option outside its documented range falls back to its default"""
     import supvisors.options as OPT
@@ -533,6 +581,8 @@ HARNESSES = [
             doc='aliases, duplicates, wildcard and sign identifiers'),
     Harness('H18g', groups, quick={}, thorough={}, reach=('resolved',), timeout=(60, 120),
             doc='# and @ over homogeneous groups'),
+    Harness('H18h', groups_end_to_end, quick={}, thorough={}, reach=('resolved',), timeout=(60, 120),
+            doc='# and @ through rules document -> Parser -> Context -> Starter planning, group in or out of the sequence'),
     Harness('H18e', options, quick={}, thorough={}, reach=('resolved',), timeout=(100, 300),
             doc='[supvisors] options: ranges with symbolic values, NaN / inf, synchro_options consistency'),
     Harness('H18f', shipped_files, quick={}, thorough={}, reach=('loaded',), timeout=(30, 60),
